@@ -132,6 +132,7 @@ PROPS["C01"] = {
     "theorems": [
         {"name": "C01_forms_agree", "status": "proved", "statement": "easy = easy_inplace = mac ++ detached for every key, nonce, message length (buffers of the documented size)"},
         {"name": "C01_roundtrip", "status": "proved", "statement": "open_easy / open_easy_inplace / open_detached_inplace of the box return the message, every key / nonce / length"},
+        {"name": "C01_secretbox_is_nacl", "status": "proved", "statement": "forall key, nonce, message: crypto_secretbox_easy = Poly1305_RFC8439(ks[0..32], c) || c with ks the XSalsa20 key stream and c = m xor ks[32..] (NaCl's definition; XSalsa20 as specification, Poly1305 proved for the implementation)"},
         {"name": "C01_box_is_secretbox", "status": "proved", "statement": "forall message, nonce, key pair: crypto_box_easy / easy_inplace = the secret-key form under HSalsa20(X25519(sk, pk), 0^16); open likewise"},
         {"name": "C01_box_roundtrip", "status": "proved", "statement": "forall messages: if the two parties' precomputed keys agree (X25519 commutes -- assumption) each opens the other's box"},
         {"name": "C01_seal_layout", "status": "proved", "statement": "a sealed box is epk || box under nonce BLAKE2b-24(epk || recipient pk) with epk = base * esk, for every ephemeral key the generator may draw"},
